@@ -43,10 +43,15 @@ theorem Mono.seek {n : Int} (h : 0 ≤ n) : Mono (Sbdf.seek n) := by
   · simp only [Except.ok.injEq, Prod.mk.injEq] at he; omega
   · simp at he
 
-theorem Mono.seekGuard (n : Int) (s : Status) : Mono (if n < 0 then (P.fail s : P Unit) else Sbdf.seek n) := by
+theorem Mono.skipBytes (c : Cfg) {n : Int} (h : 0 ≤ n) : Mono (Sbdf.skipBytes c n) := by
+  unfold Sbdf.skipBytes Sbdf.discard; split
+  · exact Mono.bind (Mono.readN _) (fun _ => Mono.pure _)
+  · exact Mono.seek h
+
+theorem Mono.seekGuard (c : Cfg) (n : Int) (s : Status) : Mono (if n < 0 then (P.fail s : P Unit) else Sbdf.skipBytes c n) := by
   split
   · exact Mono.fail _
-  · exact Mono.seek (by omega)
+  · exact Mono.skipBytes c (by omega)
 
 theorem Mono.alloc (c : Cfg) (n : Int) : Mono (Sbdf.alloc c n) := by
   unfold Sbdf.alloc; split
@@ -122,7 +127,7 @@ theorem mono_readString (c : Cfg) : Mono (readString c) := by
   unfold readString; simp only [P.bind_def]; mono_tac [mono_readInt32, mono_allocStr]
 theorem mono_skipString (c : Cfg) : Mono (skipString c) := by
   unfold skipString; simp only [P.bind_def]
-  exact Mono.bind (mono_readInt32 c) (fun l => Mono.seekGuard l _)
+  exact Mono.bind (mono_readInt32 c) (fun l => Mono.seekGuard c l _)
 theorem mono_secRead : Mono secRead := by
   unfold secRead; simp only [P.bind_def]; mono_tac [mono_readInt8]
 theorem mono_secExpect (id : Nat) : Mono (secExpect id) := by
@@ -143,13 +148,13 @@ theorem mono_skipObjects (c : Cfg) (tid : Nat) (count : Int) (packed : Bool) : M
   refine Mono.ite (fun _ => Mono.fail _) (fun hc => ?_)
   split
   · split
-    · exact Mono.bind (mono_readInt32 c) (fun sk => Mono.seekGuard sk _)
-    · exact Mono.skipMany (Mono.bind (mono_readInt32 c) (fun sk => Mono.seekGuard sk _)) _
+    · exact Mono.bind (mono_readInt32 c) (fun sk => Mono.seekGuard c sk _)
+    · exact Mono.skipMany (Mono.bind (mono_readInt32 c) (fun sk => Mono.seekGuard c sk _)) _
   · split
     · exact Mono.fail _
     · rename_i sz _
       refine Mono.ite (fun _ => Mono.fail _) (fun _ => ?_)
-      refine Mono.bind (Mono.guardUB _ _) (fun _ => Mono.seek ?_)
+      refine Mono.bind (Mono.guardUB _ _) (fun _ => Mono.skipBytes c ?_)
       exact Int.mul_nonneg (by omega) (by omega)
 theorem mono_skipObjArr (c : Cfg) (tid : Nat) : Mono (skipObjArr c tid) := by
   unfold skipObjArr; simp only [P.bind_def]
@@ -168,7 +173,7 @@ theorem mono_skipVA (c : Cfg) : Mono (skipVA c) := by
   refine Mono.bind mono_readInt8 (fun e => Mono.bind mono_readInt8 (fun vt => ?_))
   refine Mono.ite (fun _ => mono_skipObjArr c vt) (fun _ => Mono.ite (fun _ => ?_) (fun _ => Mono.ite (fun _ => ?_) (fun _ => Mono.fail _)))
   · exact Mono.bind (mono_readInt32 c) (fun _ => Mono.bind (mono_skipObjArr c 254) (fun _ => mono_skipObjArr c vt))
-  · refine Mono.bind (mono_readInt32 c) (fun v => Mono.ite (fun _ => Mono.fail _) (fun hv => Mono.seek ?_))
+  · refine Mono.bind (mono_readInt32 c) (fun v => Mono.ite (fun _ => Mono.fail _) (fun hv => Mono.skipBytes c ?_))
     exact packedSize_nonneg v (by omega)
 
 theorem mono_readCS (c : Cfg) : Mono (readCS c) := by
